@@ -139,10 +139,11 @@ def build():
 
     ce = u.extract(V, '', 'circuit_exp_by_constant', 'circuit_exp_by_constant')
     ce.set_sig('R11', 'fn circuit_exp_by_constant<EF: FieldX>(builder: &mut CircuitBuilder<EF>, base: Target, n: usize) -> Target')
-    ce.rewrite('R9', 'debug_assert!(n > 0);', 'assert(n > 0);')
+    ce.rewrite_re('R9', r'debug_assert!\(n > 0\);', 'assert(n > 0);', min_count=0)
+    ce.rewrite_re('R11', r'\bEF::ONE\b', 'EF::one()', min_count=0)
     ce.rewrite('R11', 'usize::BITS - n.leading_zeros()', 'bit_length(n)')
     ce.rewrite('R5', 'for i in (0..num_bits - 1).rev() {', 'for ri_ in 0..(num_bits - 1) { let i = num_bits - 2 - ri_;')
-    ce.requires('positive_exponent', 'n > 0')
+    # no precondition on n: native alpha^0 = 1 (the unit had carried the function's debug assertion n > 0 as a precondition, which hid the panic repaired by the fix)
     ce.requires('allocated', 'old(builder).has(base)')
     ce.ensures('frame', 'final(builder).extends_pure(old(builder)) && final(builder).has(ret)')
     ce.ensures('power', 'final(builder).val(ret) == fpow(old(builder).val(base), n as nat)')
